@@ -277,6 +277,39 @@ Definition plan_with_caches (m : mgrid) (has_meta minimize bulk : bool) (cached 
 Definition plan_with_cache (m : mgrid) (has_meta minimize bulk : bool) (cached tiles : list coord) : option (list step) :=
   plan_with_caches m has_meta minimize bulk cached cached tiles.
 
+(* ---- upstream faults.  bad: the bboxes whose response is not cacheable (ImageSource.cacheable = False, e.g. the
+   substitute image of an on_error handler with cache: false); cut: the bboxes whose response ends in the middle of the
+   image data.  _create_single_tile stores "if source.cacheable", _create_meta_tile "if meta_tile_image.cacheable"
+   (all tiles or none), _create_bulk_meta_tile stores "[t for t in tiles if t.cacheable]" where
+   Tile(coord, cacheable=tile_image.cacheable).  A cut-off meta tile image makes TileSplitter raise
+   (PIL: image file is truncated): the step stores nothing, the request fails and the rest of the plan is not run
+   (cut is modelled for the meta tile strategies only: single and bulk tiles are not decoded before they are stored). *)
+Fixpoint bbox_mem (b : bbox) (l : list bbox) : bool :=
+  match l with [] => false | x :: r => bbox_eqb b x || bbox_mem b r end.
+
+Definition step_with_faults (g : grid) (bulk : bool) (bad : list bbox) (st : step) : step :=
+  if bulk then (fst st, filter (fun c => negb (bbox_mem (fst (tile_request g c)) bad)) (snd st))
+  else if existsb (fun rq => bbox_mem (fst rq) bad) (fst st) then (fst st, []) else st.
+
+(* result: the steps that were run, and whether the request failed *)
+Fixpoint run_plan_faults (g : grid) (bulk : bool) (bad cut : list bbox) (plan : list step) : list step * bool :=
+  match plan with
+  | [] => ([], false)
+  | st :: rest =>
+    if negb bulk && existsb (fun rq => bbox_mem (fst rq) cut) (fst st) then ([(fst st, [])], true)
+    else let '(r, failed) := run_plan_faults g bulk bad cut rest in
+         (step_with_faults g bulk bad st :: r, failed)
+  end.
+
+Definition request_with_faults (m : mgrid) (has_meta minimize bulk : bool) (cached : list coord) (bad cut : list bbox)
+           (tiles : list coord) : option (list request * list coord * bool) :=
+  match plan_with_cache m has_meta minimize bulk cached tiles with
+  | None => None
+  | Some plan =>
+    let '(steps, failed) := run_plan_faults (mg_grid m) (has_meta && bulk) bad cut plan in
+    Some (flat_map fst steps, flat_map snd steps, failed)
+  end.
+
 (* ---- colours: a second position-only picture whose four bands all carry information (alpha between 1 and 254
    when the cache is transparent) and what TileSplitter.get_tile stores for a pixel:
    result = create_image(tile_size, image_opts) is the background (bgcolor white, alpha 0 when transparent),
@@ -307,3 +340,7 @@ Definition step_eqb (a b : step) : bool :=
 Definition plan_eqb (a b : option (list step)) : bool := opt_eqb (list_eqb step_eqb) a b.
 Definition opix_eqb (a b : option (Z * Z)) : bool := opt_eqb Z2_eqb a b.
 Definition oopix_eqb (a b : option (option (Z * Z))) : bool := opt_eqb opix_eqb a b.
+Definition outcome_eqb (a b : option (list request * list coord * bool)) : bool :=
+  opt_eqb (fun x y => list_eqb request_eqb (fst (fst x)) (fst (fst y)) &&
+                      list_eqb coord_eqb (snd (fst x)) (snd (fst y)) && Bool.eqb (snd x) (snd y)) a b.
+
